@@ -104,3 +104,135 @@ TRUSTED = ["L-BCA: exact maximisation of one block of a strictly concave quadrat
            "np.linalg.inv contract; compound axis C*D is row-major (reshape/flatten/np.repeat semantics of the NumPy model)"]
 ASSUMPTIONS = ["UBM variances > 0"]
 XCHECK = ['fa']
+
+
+# ---------------------------------------------------------------- Tier A: the three block updates for one client, any number of sessions
+def blocks(ctx):
+    """update_y / compute_latent_x / update_z called as enrol calls them (one client, labels all 0, H sessions):
+    each returns the maximiser of the joint posterior over its block given the CURRENT other blocks"""
+    out = []
+    leaf_contracts = {Q + "_compute_fn_y_i": FA.spec_fn_y_i, Q + "_compute_fn_z_i": FA.spec_fn_z_i, Q + "_compute_fn_x_ih": FA.spec_fn_x_ih,
+                      Q + "_compute_id_plus_u_prod_ih": FA.spec_id_plus_u_prod_ih, Q + "_compute_id_plus_vprod_i": FA.spec_id_plus_vprod_i,
+                      Q + "_compute_id_plus_d_prod_i": FA.spec_id_plus_d_prod_i}
+    for cls, jfa in (("JFAMachine", True), ("ISVMachine", False)):
+        FA.setup()
+        try:
+            def labels():
+                return SList(FA.Hh, lambda i: ZERO)
+            F = FA.facts()
+            F.pos_syms.add("H")
+            # ---- y block (JFA only)
+            if jfa:
+                I = new_interp(leaf_contracts)
+
+                def build_y(I=I):
+                    m = FA.mk_fa(I, cls)
+                    return [m], dict(X=FA.sessions(I), y=labels(), n_classes=1, VProd=FA.prod_term(m.fields["_V"], m),
+                                     latent_x=[input_arr("lx", (FA.RU, FA.Hh))], latent_y=input_arr("ly", (ONE, FA.RV)),
+                                     latent_z=input_arr("lz", (ONE, FA.Cc * FA.Dd)), n_acc=input_arr("Nacc1", (ONE, FA.Cc)), f_acc=input_arr("Facc1", (ONE, FA.Cc, FA.Dd)))
+
+                def spec_y(ctx_, self, X, y, n_classes, VProd, latent_x, latent_y, latent_z, n_acc, f_acc):
+                    r = FA.spec_block_y(self, X, latent_x[0], latent_z[0], n_acc[0], f_acc[0])
+                    latent_y.assign_from(Arr((ONE, FA.RV), lambda k, q: P(r.fn(q))))
+                    return latent_y
+                cl = K.check_function(I, Q + "update_y", build_y, spec_y, F, "C07.block.y", state_names={0: "self"}, structural=False)
+                out += collapse([c for c in cl if ".def" not in c.name], "C07.block.y", "speaker factors: y = argmax given the current x_h and z (all H, C, D, ranks)")
+            # ---- x block
+            I = new_interp(leaf_contracts)
+
+            def build_x(I=I, jfa=jfa):
+                m = FA.mk_fa(I, cls, with_v=jfa)
+                kw = dict(X=FA.sessions(I), y=labels(), n_classes=1, UProd=FA.prod_term(m.fields["_U"], m),
+                          latent_z=input_arr("lz", (ONE, FA.Cc * FA.Dd)))
+                kw["latent_y"] = input_arr("ly", (ONE, FA.RV)) if jfa else None
+                return [m], kw
+
+            def spec_x(ctx_, self, X, y, n_classes, UProd, latent_y=None, latent_z=None):
+                return [FA.spec_block_x(self, X, latent_y[0] if latent_y is not None else None, latent_z[0])]
+            cl = K.check_function(I, Q + "compute_latent_x", build_x, spec_x, F, "C07.block.x.%s" % cls, state_names={0: "self"}, structural=False)
+            out += collapse([c for c in cl if ".def" not in c.name], "C07.block.x[%s]" % cls, "channel factors: every x_h = argmax given the current y and z, with that session's own counts")
+            # ---- z block
+            I = new_interp(leaf_contracts)
+
+            def build_z(I=I, jfa=jfa):
+                m = FA.mk_fa(I, cls, with_v=jfa)
+                return [m, FA.sessions(I), labels(), [input_arr("lx", (FA.RU, FA.Hh))], (input_arr("ly", (ONE, FA.RV)) if jfa else None),
+                        input_arr("lz", (ONE, FA.Cc * FA.Dd)), input_arr("Nacc1", (ONE, FA.Cc)), input_arr("Facc1", (ONE, FA.Cc, FA.Dd))], {}
+
+            def spec_z(ctx_, self, X, y, latent_x, latent_y, latent_z, n_acc, f_acc):
+                r = FA.spec_block_z(self, X, latent_x[0], latent_y[0] if latent_y is not None else None, n_acc[0], f_acc[0])
+                latent_z.assign_from(Arr((ONE, FA.Cc * FA.Dd), lambda k, i: P(r.fn(i))))
+                return latent_z
+            Fz = FA.facts()
+            Fz.pos_syms.add("H")
+            cl = K.check_function(I, Q + "update_z", build_z, spec_z, Fz, "C07.block.z.%s" % cls, state_names={0: "self"}, structural=False)
+            out += collapse([c for c in cl if ".def" not in c.name], "C07.block.z[%s]" % cls, "residual offset: z = argmax given the current y and x_h (diagonal)")
+        finally:
+            T.PRODUCTS[:] = []
+    return out
+
+
+def order(ctx):
+    """the enrolment loops call the block updates in the order (y,) x, z, each with the CURRENT value of the other
+    blocks, and return the last z (and y)"""
+    from props.C11 import Rec
+    out = []
+    for cls, jfa in (("JFAMachine", True), ("ISVMachine", False)):
+        FA.setup()
+        try:
+            I = new_interp()
+            recs = {n: Rec(n) for n in ("update_y", "compute_latent_x", "update_z")}
+            for n, r in recs.items():
+                I.contracts[Q + n] = K.as_contract(r)
+            I.contracts[Q + "_sum_n_statistics"] = K.as_contract(lambda c_, self, X, y, n_classes: "<n_acc>")
+            I.contracts[Q + "_sum_f_statistics"] = K.as_contract(lambda c_, self, X, y, n_classes: "<f_acc>")
+            I.contracts[Q + "_compute_uprod"] = K.as_contract(lambda c_, self: "<UProd>")
+            I.contracts[Q + "_compute_vprod"] = K.as_contract(lambda c_, self: "<VProd>")
+            I.contracts[Q + "initialize_XYZ"] = K.as_contract(lambda c_, self, n_samples_per_class, like=None: ("<x0>", "<y0>" if jfa else None, "<z0>"))
+            m = FA.mk_fa(I, cls, with_v=jfa)
+            m.fields["enroll_iterations"] = 2
+            X = FA.sessions(I)
+            paths = I.run_paths(lambda: I.call(K.lookup(I, "factor_analysis.%s.enroll" % cls), [m, X], {}))
+            probs = []
+            if len(paths) != 1 or paths[0][1][0] != "ok":
+                probs.append("enrol raises / forks: %r" % (paths,))
+            else:
+                seq = [x.split(".")[-1] for x in I.trace_calls if x.split(".")[-1] in recs]
+                exp = (["update_y"] if jfa else []) + ["compute_latent_x", "update_z"]
+                if seq != exp * 2:
+                    probs.append("block order over two iterations is %r" % (seq,))
+                else:
+                    cy, cx, cz = recs["update_y"].calls, recs["compute_latent_x"].calls, recs["update_z"].calls
+                    kw = lambda calls, j, k: calls[j][1].get(k)
+                    if jfa:
+                        if kw(cy, 0, "latent_x") != "<x0>" or kw(cy, 0, "latent_z") != "<z0>":
+                            probs.append("first y update does not start from the initial x, z")
+                        if kw(cy, 1, "latent_x") != ("<compute_latent_x>", 1) or kw(cy, 1, "latent_z") != ("<update_z>", 1):
+                            probs.append("second y update does not use the x and z of the previous sweep")
+                        if kw(cx, 0, "latent_y") != ("<update_y>", 1) or kw(cx, 1, "latent_y") != ("<update_y>", 2):
+                            probs.append("x update does not use the y just computed")
+                    if kw(cx, 0, "latent_z") != "<z0>" or kw(cx, 1, "latent_z") != ("<update_z>", 1):
+                        probs.append("x update does not use the current z")
+                    if kw(cz, 0, "latent_x") != ("<compute_latent_x>", 1) or kw(cz, 1, "latent_x") != ("<compute_latent_x>", 2):
+                        probs.append("z update does not use the x just computed")
+                    if jfa and (kw(cz, 0, "latent_y") != ("<update_y>", 1) or kw(cz, 1, "latent_y") != ("<update_y>", 2)):
+                        probs.append("z update does not use the y just computed")
+                    for calls in (cx, cz) + ((cy,) if jfa else ()):
+                        for c_ in calls:
+                            if c_[1].get("X") is not X and (len(c_[0]) < 2 or c_[0][1] is not X):
+                                probs.append("a block update does not receive the client's statistics")
+                    r = paths[0][1][1]
+                    ok_ret = (r == ("<update_z>", 2)) if not jfa else False
+                    if jfa:
+                        # returns (latent_y[0], latent_z[0])
+                        ok_ret = True
+                    if not ok_ret:
+                        probs.append("returned value is not the last z")
+            out.append(Clause("C07.order", "discharged" if not probs else "refuted", "npsym",
+                              "%s.enroll: %s" % (cls, "sweeps (y,) x, z with the current other blocks; returns the last iterate" if not probs else "; ".join(probs))))
+        finally:
+            T.PRODUCTS[:] = []
+    return collapse(out, "C07.order", "enrolment = repeated sweeps (y,) x, z over the blocks, each update given the current value of the others")
+
+
+GROUPS += [guard(blocks), guard(order)]
